@@ -154,7 +154,7 @@ def expr(c, prov):
     if op == "iterate":
         return "iter_all(%s)" % s
     if op == "split":
-        return "%s.split(%s)%s.to_tuple()" % (s, P(a[0]), ".take(12)" if not a[0] else "")
+        return "%s.split(%s).take(40).to_tuple()" % (s, P(a[0]))
     if op == "split_fn":
         return "%s.split(|c| c == %s).to_tuple()" % (s, P(a[0]))
     if op in ("contains", "starts_with", "ends_with", "strip_prefix", "strip_suffix"):
@@ -293,7 +293,7 @@ def run(tier, seed):
         "per_group": per_group, "exhaustive_within_bounds": True,
         "samples": [{"case": cases[len(cases) // 3], "expression": expr(cases[len(cases) // 3], "sub") if cases[len(cases) // 3]["op"] not in ("literal", "format_int") else ""}],
     }
-    rep.assumptions = ["slices that reach outside the string, empty patterns for split/replace, radix or zero padding of negative numbers, "
+    rep.assumptions = ["slices that reach outside the string, radix or zero padding of negative numbers, "
                        "and to_number on texts the documentation does not classify are not decided (valid text or an error is required)",
                        "grapheme clusters follow UAX #29 restricted to the classes in the alphabet"]
     return rep.finish()
